@@ -676,7 +676,7 @@ impl Prop for C03 {
         .boxed()
     }
     fn cases(&self, tier: Tier) -> u32 {
-        tier.pick(60_000, 2_000_000)
+        tier.pick(100_000, 2_000_000)
     }
     fn exhaustive_note(&self, _tier: Tier) -> Option<String> {
         Some("side table only: all 129 600 (end heading, start heading) pairs for EdgeHeading::bearing_to_destination and all 361 angles for the Turn::from_angle laws".into())
